@@ -2,6 +2,8 @@
    reported probability is the left-to-right product.  Property theorems only. *)
 From Coq Require Import List Bool Sorting.Permutation Floats.
 From Pcfg Require Import ProbAlg F64 Next NextSpec NextProofs NextFacts.
+From Pcfg Require Import KernelRt KernelGenProofs.
+From PcfgGen Require Import Kernel_gen.
 
 (* every prefix of the run, every probability algebra, every queue meeting the
    heap contract on ok values; the second part is the frontier invariant *)
@@ -58,7 +60,39 @@ Proof. exact peq_F64. Qed.
 Theorem C01_hypotheses_satisfiable : wf demo_rs /\ total demo_rs = 44.
 Proof. exact (conj demo_wf demo_total). Qed.
 
+(* ---- second tie to the source: gen/Kernel_gen.v is the translation of the Python text of
+   _find_prob, _are_you_my_child, find_children and initalize_base_structures
+   (harness/translate_kernel.py, redone on every run); the queue loop over the translated
+   functions goes through the model's states, so the two main theorems hold for it verbatim
+   (up / un: the arbitrary value of a subscript that raises in Python) *)
+Theorem C01_source_find_prob_is_model :
+  forall (A : palg) (up : P A) (rs : ruleset A) (t : pt) (b : P A),
+  inrange rs t -> py_find_prob up rs t b = find_prob rs t b.
+Proof. exact (fun A up rs t b => kernel_find_prob_eq up rs t b). Qed.
+
+Theorem C01_translated_run_is_model :
+  forall (A : palg) (up : P A) (un : var * nat) (rs : ruleset A), wf rs -> forall pop n, pop_ok_okb pop ->
+  kernel_run up un pop rs n (kernel_start up rs) = run pop rs n (start rs).
+Proof. exact (fun A up un rs H pop n => kernel_run_eq up un rs H pop n). Qed.
+
+Theorem C01_sorted_every_prefix_translated :
+  forall (A : palg) (up : P A) (un : var * nat) (rs : ruleset A), wf rs ->
+  forall pop n, pop_ok_okb pop ->
+    nonincreasing (rev (emitted (kernel_run up un pop rs n (kernel_start up rs)))) /\
+    (forall e q, In e (emitted (kernel_run up un pop rs n (kernel_start up rs))) ->
+                 In q (pending (kernel_run up un pop rs n (kernel_start up rs))) -> ple (iprob q) (iprob e) = true).
+Proof. exact (fun A up un rs H pop n => kernel_sorted_every_prefix up un rs H pop n). Qed.
+
+Theorem C01_prob_is_product_translated :
+  forall (A : palg) (up : P A) (un : var * nat) (rs : ruleset A), wf rs ->
+  forall pop n it, pop_ok_okb pop ->
+    In it (emitted (kernel_run up un pop rs n (kernel_start up rs)) ++ pending (kernel_run up un pop rs n (kernel_start up rs))) ->
+    iprob it = py_find_prob up rs (ipt it) (ibase it) /\ In it (all_preterminals rs).
+Proof. exact (fun A up un rs H pop n it => kernel_prob_is_product up un rs H pop n it). Qed.
+
 Print Assumptions C01_sorted_every_prefix.
+Print Assumptions C01_sorted_every_prefix_translated.
+Print Assumptions C01_prob_is_product_translated.
 Print Assumptions C01_prob_is_product.
 Print Assumptions C01_binary64.
 Print Assumptions C01_python_lt_is_plt.
